@@ -142,6 +142,13 @@ func oracleC08() *Result {
 			}
 		}
 	}
+	// trivia on the line of a heredoc's closing label (7.3+): the structure must be that of the plain form
+	for _, open := range []string{"<<<EOT", "<<<'EOT'"} {
+		base := []byte("<?php\n$a = " + open + "\nfoo\nEOT;\n$c = " + open + "\nbar\nEOT;\necho 1;\n")
+		for _, tr := range []string{"; // first", ";\t", "; ", ";# c", ";/* c */", " ;", " /* c */ ;"} {
+			add(base, []byte("<?php\n$a = "+open+"\nfoo\nEOT"+tr+"\n$c = "+open+"\nbar\nEOT;\necho 1;\n"), "7.4", "heredoc-trailer")
+		}
+	}
 	for _, src := range regressionInputs("C08") {
 		for _, k := range []int{9, 4, 3, 1} {
 			for _, tv := range withTriviaKinds(rng, src, 7, k) {
